@@ -130,7 +130,16 @@ func (s *Service) ScheduleJob(ctx context.Context,
 		case <-time.After(time.Until(runtime)):
 			// It is possible that the job is already active, so check that first before proceeding.
 			if job.active.Load() {
-				s.log.Trace().Str("job", name).Time("scheduled", runtime).Msg("Already running; job not running")
+				// The job has been claimed by RunJob, which has removed it from the jobs list and
+				// reported (or is about to report) success.  This goroutine is the only place the
+				// job can run, so take the run signal and run the job as the run branch does.
+				<-job.runCh
+				s.log.Trace().Str("job", name).Time("scheduled", runtime).Msg("Run triggered at scheduled time; job running")
+				monitorJobStartedOnSignal(class)
+				jobFunc(ctx)
+				s.log.Trace().Str("job", name).Time("scheduled", runtime).Msg("Job complete")
+				finaliseJob(job)
+				job.active.Store(false)
 				break
 			}
 			s.jobsMutex.Lock()
